@@ -93,6 +93,10 @@ class DetLoop(asyncio.AbstractEventLoop):
     def run(self, awaitable: Awaitable[Any], max_steps: int = 200000) -> Any:
         old = events._get_running_loop()  # pylint:disable=protected-access
         events._set_running_loop(self)  # pylint:disable=protected-access
+        # code under test that says asyncio.Task / asyncio.Future must see the classes this loop hands out
+        saved = (asyncio.Task, asyncio.Future, tasks.Task, futures.Future)
+        asyncio.Task = tasks.Task = _PyTask
+        asyncio.Future = futures.Future = _PyFuture
         try:
             root = self.create_task(_wrap(awaitable))
             while not root.done():
@@ -118,6 +122,7 @@ class DetLoop(asyncio.AbstractEventLoop):
                 raise exc
             return root.result()
         finally:
+            asyncio.Task, asyncio.Future, tasks.Task, futures.Future = saved
             events._set_running_loop(old)  # pylint:disable=protected-access
 
 
@@ -125,11 +130,34 @@ async def _wrap(awaitable):
     return await awaitable
 
 
+def _tracing() -> bool:
+    try:
+        from crosshair.tracers import is_tracing
+
+        return bool(is_tracing())
+    except Exception:  # pylint:disable=broad-except
+        return False
+
+
 def run(awaitable: Awaitable[Any]) -> Any:
-    """run on a fresh DetLoop in a fresh copy of the current context (like asyncio.run does)"""
-    loop = DetLoop()
+    """Under CrossHair: run on a fresh DetLoop in a fresh copy of the current context (like asyncio.run does).
+    Natively (replay of a counterexample, DESIGN §4.3): run on a REAL asyncio event loop, so that a counterexample only
+    counts if the real loop (C-accelerated Task/Future, selector loop) shows it too."""
     ctx = contextvars.copy_context()
-    return ctx.run(loop.run, awaitable)
+    if _tracing():
+        return ctx.run(DetLoop().run, awaitable)
+
+    def real():
+        loop = asyncio.new_event_loop()
+        try:
+            return loop.run_until_complete(awaitable)
+        finally:
+            try:
+                loop.run_until_complete(loop.shutdown_asyncgens())
+            finally:
+                loop.close()
+
+    return ctx.run(real)
 
 
 async def yields(n: int) -> None:
